@@ -122,5 +122,8 @@ mod verif_kani_supportedcone {
     }
     #[kani::proof]
     #[kani::unwind(4)]
-    fn new_collapsed_dev4() { check_on([cone_of(0), cone_of(2), cone_of(0)]); }
+    fn new_collapsed_dev4() { check_on([cone_of(0), SecondOrderConeT(1), cone_of(0)]); }
+    #[kani::proof]
+    #[kani::unwind(4)]
+    fn new_collapsed_dev5() { check_on([cone_of(0), ZeroConeT(0), cone_of(0)]); }
 }
